@@ -28,7 +28,7 @@ func (world) Run(k *kernel.K) {
 func (world) Rule(p string) string {
 	switch p {
 	case "C05":
-		return "one run = a prover node (real dot/state InmemoryStorageState + pkg/trie/inmemory over a simulated disk) that builds 2-5 stored states as a tree of forks (TrieState(root), runtime-chosen state version V0/V1, put / overwrite / delete, StoreTrie, optional eviction), then answers 3-9 read-proof requests (1-12 keys) from its STORED state through GenerateTrieProof or the real RPC StateModule.GetReadProof; the node list travels SCALE-encoded to a verifier that calls proof.Verify (and db.NewMemoryDBFromProof). Tape-chosen per request: fault-free channel / faulty channel (1-4 of: node dropped, duplicated, reordered, replaced by or joined with a foreign node of another stored state or a raw stored value, bit-flipped, truncated, garbage added; truncation / splice of the SCALE wire message) / Byzantine prover (genuine proof with false claims, proof from a state where the pair was present before it was deleted or overwritten, nodes of two states mixed, sibling-key proof offered for an absent key, the whole disk as proof, raw values appended). Keys from an adversarial nibble alphabet (shared prefixes, key-is-prefix-of-key, empty key, keys over 63 nibbles), values 0/1/31/32/33/40/64 bytes and rare 4 KiB. Oracles from the statement over the reference ordered map of each state: soundness - for EVERY claim on EVERY delivered node list, Verify == nil implies the key is in the state (and, for a non-empty claimed value, with exactly that value); completeness - honest prover and fault-free channel: every requested present key verifies with its value and as present; absent keys never verify. Input classes that reached findings are drawn per run under knobs: absent keys inside a request (1/5; still a known finding, the other runs stay clean of it), and - repaired since, hence mostly on - V1 values over 32 bytes on the fault-free channel (3/4), empty values on the fault-free channel (3/4), requests addressed to a state without keys (1/3), claims 'value = Blake2b(real value)' for hashed values (3/4). Non-trivial = at least one fault or Byzantine strategy fired, or a fault-free request with >= 2 keys; distinct = event-kind sequence fingerprint."
+		return "one run = a prover node (real dot/state InmemoryStorageState + pkg/trie/inmemory over a simulated disk) that builds 2-5 stored states as a tree of forks (TrieState(root), runtime-chosen state version V0/V1, put / overwrite / delete, StoreTrie, optional eviction), then answers 3-9 read-proof requests (1-12 keys) from its STORED state through GenerateTrieProof or the real RPC StateModule.GetReadProof; the node list travels SCALE-encoded to a verifier that calls proof.Verify (and db.NewMemoryDBFromProof). Tape-chosen per request: fault-free channel / faulty channel (1-4 of: node dropped, duplicated, reordered, replaced by or joined with a foreign node of another stored state or a raw stored value, bit-flipped, truncated, garbage added; truncation / splice of the SCALE wire message) / Byzantine prover (genuine proof with false claims, proof from a state where the pair was present before it was deleted or overwritten, nodes of two states mixed, sibling-key proof offered for an absent key, the whole disk as proof, raw values appended). Keys from an adversarial nibble alphabet (shared prefixes, key-is-prefix-of-key, empty key, keys over 63 nibbles), values 0/1/31/32/33/40/64 bytes and rare 4 KiB. Oracles from the statement over the reference ordered map of each state: soundness - for EVERY claim on EVERY delivered node list, Verify == nil implies the key is in the state (and, for a non-empty claimed value, with exactly that value); completeness - honest prover and fault-free channel: every requested present key verifies with its value and as present; absent keys never verify. Input classes that reached findings are drawn per run under knobs: absent keys inside a request (1/5; still a known finding, the other runs stay clean of it), and - repaired since, hence mostly on - V1 values over 32 bytes on the fault-free channel (3/4), empty values on the fault-free channel (3/4), requests addressed to a state without keys (1/3), claims 'value = Blake2b(real value)' for hashed values (3/4). Non-trivial = at least one fault or Byzantine strategy fired, or a fault-free request with >= 2 keys; distinct = event-kind sequence fingerprint. One run in eight gives the first state a comb: a 33-48 byte key with a sibling key diverging at every nibble (a path of 66-96 nested hashed branches)."
 	case "C06":
 		return "one run = a history of 8-70 tape-chosen steps on a real triedb.TrieDB[H256,Blake2-256] over a simulated disk: Put / Delete (adversarial nibble key alphabet incl. empty key, key-is-prefix-of-key, keys over 63 nibbles; values 0/1/31/32/33/40/64 bytes and rare 4 KiB; same-value rewrites; deletes biased to present keys so that branches merge and collapse; per-run delete weight 1/2/4 of 16), commit (Hash(), or commit() then Hash()), reopen (continue the history on a fresh NewTrieDB(root) over the same disk), crash (the disk keeps only the records up to some earlier commit, the instance is dropped, restart at that commit's root). Per-run knobs: V0/V1, cache option on/off, missing database key reads as (nil,nil) or ErrNotFound, NewEmptyTrieDB vs NewTrieDB(empty root). Oracles: after every commit Hash() == storeutil.SpecRoot(reference map, version); after every commit, reopen and crash a FRESH NewTrieDB(root) returns, for every key of the alphabet, every stored key and its absent neighbours (one-byte extension, truncation, one-nibble change), exactly the reference map's value or absent. Input classes that reached findings (all repaired since) are drawn per run under knobs: keys of 32 bytes or more (1/2), V1 values of exactly 32 bytes (3/4), Delete of an absent key that is a proper prefix of stored keys (3/4), Get through the uncommitted instance of a key that ends at a valueless branch (1/2; live reads are outside the statement and only counted). Non-trivial = a second commit with changes, a reopen or a crash happened; distinct = event-kind sequence fingerprint."
 	}
